@@ -54,6 +54,22 @@ func genC13(mode string) func(t *rapid.T) c13Case {
 					// megabyte bodies (production batches are this large): reading and decoding then take long enough to overlap
 					cl.Req.PadLen, cl.Req.PadAt, cl.Req.Class = pad, "whitespace-prefix", "overlong:whitespace"
 				}
+			case i == 2 && rapid.Bool().Draw(t, "twin"):
+				// the unsatisfiable TWIN of client 0: the same batch data, only the claimed input hash differs
+				// (anything that merges or caches work per batch rather than per request confuses the two)
+				var tw mParams
+				raw0 := c.Clients[0].Req.Body
+				if m0, err := parseParamsDoc(mode, []byte(raw0)); err == nil {
+					tw = *m0
+					tw.InputHash = addMod(tw.InputHash, pick(t, "twin_delta", int64(1), -1))
+					cl.Req = genReq{Method: "POST", Body: tw.writeDoc(styleHexLower), Class: "near-valid:twin-wrong-hash", Expect: "proving_error"}
+					cl.OffsetMs = c.Clients[0].OffsetMs + rapid.IntRange(-5, 40).Draw(t, "twin_offset")
+					if cl.OffsetMs < 0 {
+						cl.OffsetMs = 0
+					}
+					break
+				}
+				fallthrough
 			case i == 2:
 				m := genValidParams(t, mode, 3, 2)
 				m.PostRoot = addMod(m.PostRoot, 1)
